@@ -219,6 +219,13 @@ def classify(P, LS, r1, objs, memo):
         if all(k == "atomic" or (not isinstance(k, str) and (f, at) in atomic_pass) for (f, at, k, h) in lst):
             r1.ok("%s: %d accesses, all operands of __atomic builtins" % (name, len(lst)), "class atomic")
             continue
+        if any(k == "atomic" or (f, at) in atomic_pass for (f, at, k, h) in lst):
+            plain = [(f, at, k, h) for (f, at, k, h) in lst if not (k == "atomic" or (f, at) in atomic_pass or (f, at) in handled)]
+            f, at, k, h = plain[0]
+            r1.violation("%s:%s:plain-access-to-atomic" % (oid[1], f.name),
+                         "%s is accessed with __atomic builtins elsewhere but plainly in %s: the plain access races with the atomic stores" % (oid[1], f.name),
+                         loc=f.loc(at))
+            continue
         if not real_writes:
             r1.ok("%s: never written after its static initialiser (%d read sites)" % (name, len(lst)), "class never-written")
             continue
